@@ -1,5 +1,6 @@
 """Per-property specifications: which harness units exist, how they are built and sharded."""
-from driver import Unit
+from driver import Unit, ROOT
+import os
 
 GROUPS = {
     'SO2': 'manif::SO2<{S}>',
@@ -36,6 +37,12 @@ def lattice_units(src, groups=ALL_GROUPS, scalars=SCALARS, builds=('ndebug',), s
 
 
 NOT_CLAIMED = {}
+
+
+def exact_unit(prop):
+    # the library instantiated over exact rationals (GMP): group law, action, adjoint and Lie-algebra identities with zero residual
+    return Unit('exact_rational', 'checks/c01_exact.cpp', defs=['VF_UNIT="ExactQ/all_groups"', 'VF_PROP="%s"' % prop], link=[], ldflags=['-lgmpxx', '-lgmp'],
+                flags=['-I' + os.path.join(ROOT, 'checks')], deps=['checks/exactq.hpp'], shards=2, build='assert')
 
 
 class Spec:
@@ -92,6 +99,7 @@ class C01(Spec):
         us = lattice_units('checks/c01.cpp', shards=sh, defs=['VF_FN_ALL=1'])
         for u in us:
             u.bisect = [('all_but_transform', ['VF_FN=1']), ('transform', ['VF_FN=2'])]
+        us.append(exact_unit('C01'))
         return us
 
 
@@ -190,6 +198,7 @@ class C07(Spec):
         sh = (lambda g, s: 2 if 'SGal3' in g or g == 'SE_2_3' else 1)
         us = lattice_units('checks/c07.cpp', shards=sh)
         us.append(Unit('cross_type_first_use_order', 'checks/c07_cross.cpp', defs=['VF_UNIT="all_types/first_use_order"', 'VF_PROP="C07"'], shards=4))
+        us.append(exact_unit('C07'))
         return us
 
 
